@@ -1,4 +1,4 @@
-import Tahoe.Immutable.LemmasIntegrity
+import Tahoe.Immutable.LemmasBlocks
 /-! C02 — immutable downloads never return wrong bytes.
 
 Model: Tahoe/Immutable/Integrity.lean (`satisfy` = `Share._get_satisfaction`, `fetchSegment` = one
@@ -12,6 +12,26 @@ a `View` holding arbitrary version / offset table / UEB bytes / hash values / bl
 pass.  `decode` (zfec) and `pick` (set.pop order inside hashtree.py) are arbitrary functions.
 The ciphertext is arbitrary, in particular `ct = AES-CTR(key, pt)`; `read_prefix_correct_plaintext` states the
 consumer-side (decrypted) version with CTR as a position-wise xor. -/
+/-! ## Coverage of the statement (properties.jsonl, C02)
+
+| clause of the statement | theorem(s) over the model |
+|---|---|
+| a download never delivers bytes that differ from what was uploaded | `delivered_segment_genuine` (segment level, any history of the node), `read_prefix_correct` (`done` ⇒ exactly the range), `read_prefix_correct_plaintext` |
+| … for ANY modification / truncation / substitution of stored shares, servers that change their answers | the same three theorems: every field of every answer of every pass is a universally quantified `View`; truncation = a field that is not there (`none` / `[]` / short block ⇒ `Res.wait`) |
+| — forged URI extension block | `forged_ueb_rejected` (any UEB bytes other than the published ones: BadHashError at the UEB step, node untouched) |
+| — shares of another encoding of the same key | `wrong_encoding_rejected` |
+| — shares of another file (whole-share swap) | `forged_ueb_rejected` (a foreign share carries a foreign UEB) and, for a foreign share carrying the genuine UEB, the stage theorems below + `delivered_segment_genuine` |
+| — forged offset table / version / header | `bad_header_rejected` (rejected tables: LayoutInvalid, node untouched); an *accepted* forged table only changes which bytes fill the `View`, covered by the universal quantification |
+| — forged share hash chain | `share_chain_stage_sound` (the share hash tree stays a partial copy of the published tree, accepted or rejected) |
+| — forged block hash tree / its root | `block_root_anchored` (root taken only from the validated share-hash leaf), `block_hash_tree_stage_sound` |
+| — forged block data | `accepted_block_genuine` (a block reported COMPLETE is the uploader's block of that share and segment) |
+| — forged crypttext hash tree | `ct_hash_stage_sound`, and end to end `delivered_segment_genuine` |
+| a rejected share cannot weaken later validation (seeds C02-a, C02-b) | `rejected_share_cannot_poison_node` (the node invariant survives every pass, accepted or rejected, of any share) |
+| the reader receives the exact original bytes or an error | `read_prefix_correct` (`done` ⇒ exact range; otherwise `error`/`pending` with a correct prefix). That a read does END (no hang) is C46; that it ends in `done` when k good shares exist is C03 — not covered here |
+| any bytes delivered before an error are a correct prefix of the requested range | `read_prefix_correct`, `read_prefix_correct_plaintext` (for every segment-size guess, both retry paths) |
+| composition of the four share-level stage theorems into one statement about `satisfy` over whole histories | NOT proved as one theorem (each stage is proved for every node whose trees are sound; the sequential plumbing through `runStages`, incl. the other shares' block trees, is missing). The end-to-end claim does not depend on it: it rests on the ciphertext hash tree only |
+| the verifier flags the corruption | C45 (`verified_good_implies_all_valid`) |
+-/
 namespace Tahoe.C02
 open Tahoe.Integrity Tahoe.Base.Merkle
 
@@ -128,6 +148,128 @@ theorem wrong_encoding_rejected (E : Env H) (cfg : Cfg) (prm prm2 : Params) (ser
   simp only [satisfy, stages, runStages, hoff, stageUEB, hk, hv]
   rw [if_pos hhash]
 
+/-- **forged_ueb_rejected**: a share whose URI extension block is anything but the published bytes (forged,
+    truncated, of another file, of another encoding) is abandoned at the UEB step with BadHashError before
+    anything of it is stored in the download node. -/
+theorem forged_ueb_rejected (E : Env H) (cfg : Cfg) (prm : Params) (ser : UEB H → Bytes)
+    (encode : Nat → Bytes → Nat → Bytes) (ct : Bytes) (sz : Sizes) (S : Setup E cfg prm ser encode ct sz)
+    (pick : List Nat → Nat) (nd : Node H) (hk : nd.known = none) (shnum segnum : Nat)
+    (v : View H) (hoff : satisfyOffsets v.version v.offs = none) (b : Bytes)
+    (hv : v.uebBytes = some b) (hne : b ≠ (upload E prm encode ser ct).uebBytes) :
+    satisfy E cfg pick (upload E prm encode ser ct).cap nd shnum segnum v = (.dead .badHash, nd) := by
+  have hhash : E.tagged .ueb b ≠ (upload E prm encode ser ct).cap.uebHash := fun e => hne (S.cf _ _ _ e)
+  simp only [satisfy, stages, runStages, hoff, stageUEB, hk, hv]
+  rw [if_pos hhash]
+
+/-- **bad_header_rejected**: an unknown version, or an offset table whose share-hash / block-hash sections have a
+    negative or non-multiple size, makes the share be abandoned with LayoutInvalid, the node untouched; these
+    are exactly the tables `_satisfy_offsets` refuses. -/
+theorem bad_header_rejected (E : Env H) (cfg : Cfg) (pick : List Nat → Nat) (cap : Cap H) (nd : Node H)
+    (shnum segnum : Nat) (v : View H) :
+    (∀ w, satisfyOffsets v.version v.offs = some w →
+        w = .layout ∧ satisfy E cfg pick cap nd shnum segnum v = (.dead .layout, nd)) ∧
+    (satisfyOffsets v.version v.offs = none ↔
+      (v.version = 1 ∨ v.version = 2) ∧
+      v.offs.shareHashes ≤ v.offs.uriExtension ∧ (v.offs.uriExtension - v.offs.shareHashes) % 34 = 0 ∧
+      v.offs.blockHashes ≤ v.offs.shareHashes ∧ (v.offs.shareHashes - v.offs.blockHashes) % 32 = 0) := by
+  constructor
+  · intro w hw
+    have hl : w = .layout := by
+      unfold satisfyOffsets at hw
+      split at hw
+      · injection hw with hw; exact hw.symm
+      · split at hw
+        · injection hw with hw; exact hw.symm
+        · split at hw
+          · injection hw with hw; exact hw.symm
+          · cases hw
+    subst hl
+    exact ⟨rfl, by simp only [satisfy, stages, runStages, hw]⟩
+  · unfold satisfyOffsets HASH_SIZE
+    constructor
+    · intro h
+      split at h; · cases h
+      split at h; · cases h
+      split at h; · cases h
+      omega
+    · intro ⟨h1, h2, h3, h4, h5⟩
+      rw [if_neg (by omega), if_neg (by omega), if_neg (by omega)]
+
+/-- **share_chain_stage_sound**: whatever share hash chain a share supplies (forged hashes, forged hash numbers,
+    duplicates, too few, too many), after `_satisfy_share_hash_tree` the node's share hash tree is still a
+    partial copy of the published share hash tree holding its root. -/
+theorem share_chain_stage_sound (E : Env H) (cfg : Cfg) (hstrict : StrictPresence E.ops cfg) (hinj : PairInjective E.ops)
+    (pick : List Nat → Nat) (cap : Cap H) (shnum : Nat) (v : View H) (nd : Node H) (T : Tree H)
+    (hok : TreeOK E.ops T nd.shareTree) :
+    TreeOK E.ops T (stageShareTree E cfg pick cap shnum v nd).2.shareTree :=
+  stageShareTree_sound hstrict hinj pick cap shnum v nd hok
+
+/-- **block_root_anchored**: the root of a share's block hash tree is only ever taken from the validated share
+    hash tree leaf of that share number: when the stage lets the share go on, its block hash tree is anchored at
+    the published block hash root of share `shnum`. -/
+theorem block_root_anchored (E : Env H) (cfg : Cfg) (hstrict : StrictPresence E.ops cfg) (hinj : PairInjective E.ops)
+    (pick : List Nat → Nat) (prm : Params) (ser : UEB H → Bytes) (encode : Nat → Bytes → Nat → Bytes) (ct : Bytes)
+    (shnum : Nat) (hsh : shnum < prm.n) (nd : Node H) (u : UEB H) (sz : Sizes)
+    (hk : nd.known = some (u, sz)) (hns : sz.numSegs = divCeil ct.length prm.segSize)
+    (hshare : TreeOK E.ops (upload E prm encode ser ct).shareT nd.shareTree)
+    (hbt : nd.blockTree shnum sz.numSegs = newTree H sz.numSegs ∨
+      TreeOK E.ops ((upload E prm encode ser ct).blockT shnum) (nd.blockTree shnum sz.numSegs))
+    (nd1 : Node H) (h : stageBlockRoot E cfg pick (upload E prm encode ser ct).cap shnum nd = (none, nd1)) :
+    TreeOK E.ops ((upload E prm encode ser ct).blockT shnum) (nd1.blockTree shnum sz.numSegs) :=
+  (stageBlockRoot_sound hstrict hinj pick shnum hsh nd hk hns hshare hbt nd1 h).2.2
+
+/-- **block_hash_tree_stage_sound**: whatever block hashes a share supplies, its block hash tree stays a partial
+    copy of the published block hash tree (forged hashes are rejected and rolled back). -/
+theorem block_hash_tree_stage_sound (E : Env H) (cfg : Cfg) (hstrict : StrictPresence E.ops cfg)
+    (hinj : PairInjective E.ops) (pick : List Nat → Nat) (shnum segnum : Nat) (v : View H) (nd : Node H)
+    (T : Tree H) (u : UEB H) (sz : Sizes) (hk : nd.known = some (u, sz))
+    (hok : TreeOK E.ops T (nd.blockTree shnum sz.numSegs)) :
+    TreeOK E.ops T ((stageBlockHashes E cfg pick shnum segnum v nd).2.blockTree shnum sz.numSegs) :=
+  (stageBlockHashes_sound hstrict hinj pick shnum segnum v nd hk hok).2
+
+/-- **accepted_block_genuine**: with the block hash tree anchored (previous theorems), a block that
+    `_satisfy_data_block` reports COMPLETE is the block the uploader produced for that share and segment; any
+    other block is reported CORRUPT and the tree is as before. -/
+theorem accepted_block_genuine (E : Env H) (cfg : Cfg) (hstrict : StrictPresence E.ops cfg) (hinj : PairInjective E.ops)
+    (hcf : CollisionFree E) (pick : List Nat → Nat) (prm : Params) (ser : UEB H → Bytes)
+    (encode : Nat → Bytes → Nat → Bytes) (ct : Bytes) (shnum segnum : Nat) (v : View H) (nd : Node H)
+    (u : UEB H) (sz : Sizes) (hk : nd.known = some (u, sz)) (hns : sz.numSegs = divCeil ct.length prm.segSize)
+    (hseg : segnum < sz.numSegs)
+    (hok : TreeOK E.ops ((upload E prm encode ser ct).blockT shnum) (nd.blockTree shnum sz.numSegs)) :
+    TreeOK E.ops ((upload E prm encode ser ct).blockT shnum)
+      ((stageData E cfg pick shnum segnum v nd).2.blockTree shnum sz.numSegs) ∧
+    ∀ b, (stageData E cfg pick shnum segnum v nd).1 = some (.block b) →
+      b = (upload E prm encode ser ct).block shnum segnum := by
+  have hlenL : (blockLeaves E prm encode ct shnum).length = sz.numSegs := by rw [hns]; simp [blockLeaves, segments]
+  apply stageData_sound hstrict hinj hcf pick shnum segnum v nd _ hk hok hseg
+  · rw [upload_blockT, Integrity.build_length, hlenL]
+  · rw [upload_blockT]
+    have := build_leaf E.ops (blockLeaves E prm encode ct shnum) segnum (by rw [hlenL]; exact hseg)
+    rw [hlenL] at this
+    rw [this]
+    have hj : segnum < (segments ct prm.segSize).length := by rw [segments_length, ← hns]; exact hseg
+    simp [blockLeaves, List.getElem?_map, List.getElem?_range hj]
+    rfl
+
+/-- **ct_hash_stage_sound** / **rejected_share_cannot_poison_node**: every pass of `_get_satisfaction`, of any
+    share, with any answers, accepted or rejected at any stage, leaves the download node in a state where either
+    no UEB was accepted yet or the stored UEB is the published one and the ciphertext hash tree is a partial copy
+    of the published tree holding its root (in particular a rejected UEB stores nothing — seed C02-a — and a
+    rejected hash chain does not erase the trusted root — seed C02-b, given C35's rollback). -/
+theorem rejected_share_cannot_poison_node (E : Env H) (cfg : Cfg) (prm : Params) (ser : UEB H → Bytes)
+    (encode : Nat → Bytes → Nat → Bytes) (ct : Bytes) (sz : Sizes) (S : Setup E cfg prm ser encode ct sz)
+    (pick : List Nat → Nat) (shnum segnum : Nat) (v : View H) (nd : Node H)
+    (h : NodeInv E prm ser encode ct sz nd) :
+    NodeInv E prm ser encode ct sz (satisfy E cfg pick (upload E prm encode ser ct).cap nd shnum segnum v).2 :=
+  satisfy_inv S pick shnum segnum v nd h
+
+theorem ct_hash_stage_sound (E : Env H) (cfg : Cfg) (prm : Params) (ser : UEB H → Bytes)
+    (encode : Nat → Bytes → Nat → Bytes) (ct : Bytes) (sz : Sizes) (S : Setup E cfg prm ser encode ct sz)
+    (pick : List Nat → Nat) (segnum : Nat) (v : View H) (nd : Node H)
+    (h : NodeInv E prm ser encode ct sz nd) :
+    NodeInv E prm ser encode ct sz (stageCtHashes E cfg pick segnum v nd).2 :=
+  stageCt_inv S pick segnum v nd h
+
 /-! ### the hypotheses are satisfiable; a concrete instance -/
 
 /-- a two-segment file, 1-of-1 encoding, symbolic hashes -/
@@ -197,6 +339,26 @@ example :
       = ([12], .done) ∧
     read exE Cfg.asIs (fun _ => 0) dec cap 4 [[(0, exHonest 0)], [(0, exHonest 1)]] (Node.init SymH cap) 1 2
       = ([11, 12], .done) := by
+  decide
+
+/-- non-vacuity of the stage theorems: a sound (anchored) tree exists, and on the example file a pass with a forged
+    UEB, a bad version, a forged block and the honest answers ends as the theorems say -/
+example : TreeOK symOpsH (build symOpsH [SymH.tagged .block [10, 11], SymH.tagged .block [12]])
+    (seed (newTree SymH 2) (rootOf symOpsH [SymH.tagged .block [10, 11], SymH.tagged .block [12]])) := seed_ok rfl
+
+example :
+    let cap := (upload exE exPrm exEncode exSer exCt).cap
+    let nd0 := Node.init SymH cap
+    (satisfy exE Cfg.asIs (fun _ => 0) cap nd0 0 0 { exHonest 0 with uebBytes := some [8] }).1 = .dead .badHash ∧
+    (satisfy exE Cfg.asIs (fun _ => 0) cap nd0 0 0 { exHonest 0 with version := 3 }).1 = .dead .layout ∧
+    (satisfy exE Cfg.asIs (fun _ => 0) cap nd0 0 0
+        { exHonest 0 with offs := { (exHonest 0).offs with uriExtension := 328 } }).1 = .dead .layout ∧
+    (satisfy exE Cfg.asIs (fun _ => 0) cap nd0 0 0 (exHonest 0)).1 = .block [10, 11] ∧
+    (satisfy exE Cfg.asIs (fun _ => 0) cap nd0 0 0 { exHonest 0 with block := [1, 2] }).1 = .corrupt ∧
+    (satisfy exE Cfg.asIs (fun _ => 0) cap nd0 0 1
+        { exHonest 1 with blockHashes := fun _ => some (SymH.raw 5) }).1 = .dead .badHash ∧
+    (satisfy exE Cfg.asIs (fun _ => 0) cap nd0 0 1
+        { exHonest 1 with ctHashes := fun _ => some (SymH.raw 5) }).1 = .dead .badHash := by
   decide
 
 /-- the same ciphertext encoded with segment size 1: its UEB is refused under the first cap -/
